@@ -61,6 +61,43 @@ type c20Outer struct {
 }
 type c20Named []map[uint]c20Inner
 
+// embedding: a promoted field shadowed by an outer one, a name made ambiguous by two embedded structs, an
+// embedded pointer, an embedded interface and an embedded non-struct named type. Every field of every
+// embedded value is part of the value, whether or not a selector can reach it.
+type c20Base struct {
+	Name string
+	ID   int32
+}
+type c20Shadow struct {
+	c20Base
+	Name string
+}
+type c20Left struct {
+	ID int64
+	L  []byte
+}
+type c20Right struct {
+	ID int16
+	R  string
+}
+type c20Ambig struct {
+	c20Left
+	c20Right
+}
+type c20EmbPtr struct {
+	*c20Base
+	N uint8
+}
+type c20Word int32
+type c20EmbMisc struct {
+	fmt.Stringer
+	c20Word
+	K int
+}
+type c20Str8 [8]byte
+
+func (s c20Str8) String() string { return string(s[:]) }
+
 func init() {
 	register(&mon.Prop{
 		ID:    "C20",
@@ -77,7 +114,7 @@ func init() {
 			return []string{"release"}
 		},
 		Required: []string{"kind/uint", "kind/uintptr", "kind/int", "kind/bool", "kind/complex128", "kind/string", "kind/slice", "kind/array", "kind/map",
-			"kind/ptr", "kind/interface", "kind/struct", "nil/ptr", "nil/interface", "nil/slice", "nil/map", "empty/slice", "empty/map", "nil/argument", "stat/avg", "named", "large-containers", "depth>1000", "same-named-distinct-types"},
+			"kind/ptr", "kind/interface", "kind/struct", "nil/ptr", "nil/interface", "nil/slice", "nil/map", "empty/slice", "empty/map", "nil/argument", "stat/avg", "named", "large-containers", "containers>=4096-elements", "named/embedding", "depth>1000", "same-named-distinct-types"},
 		Families: func(c *mon.Config) []mon.Family {
 			return []mon.Family{
 				{Name: "cold-start", N: 1, Serial: true, Run: func(w *mon.W, _ int) {
@@ -92,10 +129,11 @@ func init() {
 					w.Bucket("cold-start")
 				}},
 				{Name: "scalar-positions", N: len(c20Scalars) * 8, Run: c20ScalarPositions},
-				{Name: "named", N: c.Pick(200, 20000), Run: c20NamedTypes},
-				{Name: "random-types", N: c.Pick(40000, 2500000), Run: c20Random},
-				{Name: "large-containers", N: c.Pick(120, 20000), Run: func(w *mon.W, idx int) { c20RandomWith(w, idx, true) }},
-				{Name: "deep-nesting", N: c.Pick(9, 300), Run: c20Deep},
+				{Name: "named", Env: 3, N: c.Pick(200, 20000), Run: c20NamedTypes},
+				{Name: "random-types", Env: 10, N: c.Pick(40000, 2500000), Run: c20Random},
+				{Name: "large-containers", Env: 6, N: c.Pick(120, 20000), Run: func(w *mon.W, idx int) { c20RandomWith(w, idx, true) }},
+				{Name: "huge-containers", Env: 3, N: 7 * 3 * c.Pick(1, 6), Run: c20Huge},
+				{Name: "deep-nesting", Env: 1, N: c.Pick(9, 300), Run: c20Deep},
 				{Name: "same-named-types", N: c.Pick(4, 100), Run: c20SameNamed},
 			}
 		},
@@ -103,14 +141,16 @@ func init() {
 }
 
 type c20Gen struct {
-	r     *gen.Rand
-	w     *mon.W
-	depth int  // max depth reached
-	hdr   bool // a header-bearing kind occurred
-	shape uint64
-	ptrs  map[reflect.Type][]reflect.Value // pool for shared pointees
-	psize map[uintptr]int
-	big   bool // large containers near the top of the value (hundreds of elements, long strings)
+	r         *gen.Rand
+	w         *mon.W
+	depth     int  // max depth reached
+	hdr       bool // a header-bearing kind occurred
+	shape     uint64
+	ptrs      map[reflect.Type][]reflect.Value // pool for shared pointees
+	psize     map[uintptr]int
+	big       bool // large containers near the top of the value (hundreds of elements, long strings)
+	hugeN     int  // > 0: the top-level slice or map gets this many elements
+	forceFull bool // the top-level container is never left nil or empty
 }
 
 func (g *c20Gen) typ(d int) reflect.Type {
@@ -211,7 +251,11 @@ func (g *c20Gen) fill(v reflect.Value, d int, asKey bool) int {
 	case reflect.Slice:
 		g.hdr = true
 		w.Bucket("kind/slice")
-		switch r.Intn(6) {
+		pick := r.Intn(6)
+		if g.forceFull && d <= 1 {
+			pick = 5
+		}
+		switch pick {
 		case 0:
 			w.Bucket("nil/slice")
 			return c20Slice // stays nil
@@ -223,6 +267,9 @@ func (g *c20Gen) fill(v reflect.Value, d int, asKey bool) int {
 		n := 1 + r.Intn(4)
 		if g.big && d <= 1 {
 			n = 100 + r.Intn(300)
+		}
+		if g.hugeN > 0 && d <= 1 {
+			n = g.hugeN
 		}
 		v.Set(reflect.MakeSlice(t, n, n+r.Intn(3)))
 		g.shape = gen.Hash64(g.shape, uint64(n))
@@ -282,7 +329,11 @@ func (g *c20Gen) fill(v reflect.Value, d int, asKey bool) int {
 	case reflect.Map:
 		g.hdr = true
 		w.Bucket("kind/map")
-		switch r.Intn(6) {
+		mpick := r.Intn(6)
+		if g.forceFull && d <= 1 {
+			mpick = 5
+		}
+		switch mpick {
 		case 0:
 			w.Bucket("nil/map")
 			return c20Map
@@ -296,6 +347,9 @@ func (g *c20Gen) fill(v reflect.Value, d int, asKey bool) int {
 		n := 1 + r.Intn(3)
 		if g.big && d <= 1 {
 			n = 50 + r.Intn(150)
+		}
+		if g.hugeN > 0 && d <= 1 {
+			n = g.hugeN
 		}
 		for i := 0; i < n; i++ {
 			k := reflect.New(t.Key()).Elem()
@@ -592,7 +646,67 @@ func c20NamedTypes(w *mon.W, idx int) {
 	}
 	c20Observe(w, nm, e2, "named-slice")
 	_ = g
+	c20Embedded(w)
 	w.Sample(func() interface{} { return mon.D{"type": "props.c20Outer", "expected": exp} })
+}
+
+func c20Embedded(w *mon.W) {
+	r := w.Rng
+	str := func() (string, int) {
+		s := c20Strings[r.Intn(len(c20Strings))]
+		return s, c20Str + len(s)
+	}
+	base := func() (c20Base, int) {
+		s, n := str()
+		return c20Base{Name: s, ID: int32(r.Uint64())}, n + 4
+	}
+	w.Bucket("named/embedding")
+	// shadowed
+	b, nb := base()
+	s2, n2 := str()
+	sh := c20Shadow{c20Base: b, Name: s2}
+	c20Observe(w, sh, nb+n2, "embedded-shadowed")
+	c20Observe(w, []*c20Shadow{&sh, nil}, c20Slice+2*c20Ptr+nb+n2, "embedded-shadowed")
+	c20Observe(w, map[int8]c20Shadow{3: sh}, c20Map+1+nb+n2, "embedded-shadowed")
+	// ambiguous
+	lb := make([]byte, r.Intn(5))
+	rs, nrs := str()
+	am := c20Ambig{c20Left{ID: 1, L: lb}, c20Right{ID: 2, R: rs}}
+	c20Observe(w, am, 8+c20Slice+len(lb)+2+nrs, "embedded-ambiguous")
+	// embedded pointer, nil and not
+	c20Observe(w, c20EmbPtr{N: 1}, c20Ptr+1, "embedded-pointer")
+	c20Observe(w, c20EmbPtr{c20Base: &b, N: 1}, c20Ptr+nb+1, "embedded-pointer")
+	// embedded interface (nil / holding an array value) and embedded named scalar
+	c20Observe(w, c20EmbMisc{K: 1}, c20Iface+4+8, "embedded-interface")
+	c20Observe(w, c20EmbMisc{Stringer: c20Str8{1}, c20Word: 5, K: 1}, c20Iface+8+4+8, "embedded-interface")
+}
+
+// c20Huge: slices, arrays and maps of 4096..262147 elements (lengths that are no multiple of any small number)
+// of a shallow element type.
+func c20Huge(w *mon.W, idx int) {
+	g := &c20Gen{r: w.Rng, w: w, ptrs: map[reflect.Type][]reflect.Value{}, psize: map[uintptr]int{}}
+	ns := []int{4096, 4097, 5003, 10007, 65537, 100003, 262147}
+	g.hugeN = ns[idx%len(ns)]
+	elem := g.typ(w.Rng.Intn(2))
+	var t reflect.Type
+	switch (idx / len(ns)) % 3 {
+	case 0:
+		t = reflect.SliceOf(elem)
+	case 1:
+		t = reflect.ArrayOf(g.hugeN, elem)
+	default:
+		t = reflect.MapOf(c20Scalars[4], elem) // int64 keys: enough distinct values
+		if g.hugeN > 70000 {
+			g.hugeN = 20011
+		}
+	}
+	w.Bucket("containers>=4096-elements")
+	v := reflect.New(t).Elem()
+	g.forceFull = true
+	exp := g.fill(v, 1, false)
+	c20Observe(w, v.Interface(), exp, "huge-container")
+	w.Distinct(gen.Hash64(gen.HashStr(t.String()), uint64(exp), g.shape))
+	w.Sample(func() interface{} { return mon.D{"type": t.String(), "elements": g.hugeN, "expected_size": exp} })
 }
 
 func c20Random(w *mon.W, idx int) { c20RandomWith(w, idx, false) }
